@@ -390,6 +390,12 @@ func (o *oracle) contains(line, val string, fold bool) (bool, error) {
 // characters are removed with strings.Trim (trimBug) and/or backslashes are not LIKE-escaped (rawBackslash), and
 // returns the pattern as ClickHouse receives it after decoding the SQL literal.
 func deviantLikePattern(val string, trimBug, rawBackslash bool) (string, error) {
+	return chsim.DecodeStringBody(deviantLikeLiteral(val, trimBug, rawBackslash), '\'')
+}
+
+// deviantLikeLiteral is the body of the SQL string literal (between the quotes) that the deviant construction
+// writes into the statement.
+func deviantLikeLiteral(val string, trimBug, rawBackslash bool) string {
 	s := val
 	if !rawBackslash {
 		s = strings.ReplaceAll(s, `\`, `\\`)
@@ -406,7 +412,7 @@ func deviantLikePattern(val string, trimBug, rawBackslash bool) (string, error) 
 	}
 	enq = strings.ReplaceAll(enq, "%", `\%`)
 	enq = strings.ReplaceAll(enq, "_", `\_`)
-	return chsim.DecodeStringBody("%"+enq+"%", '\'')
+	return "%" + enq + "%"
 }
 
 func (o *oracle) evalTree(t *Tree, labels map[string]string) (bool, error) {
